@@ -306,6 +306,25 @@ impl World {
     }
 }
 
+/// display names (backslashes shown as '/') of the visible entries physically below the root:
+/// regular files, and directories if `dirs`; links and everything hidden or below a hidden
+/// directory are not part of the workspace
+fn visible_names(snap: &Snap, root: &[String], dirs: bool) -> std::collections::BTreeSet<String> {
+    snap.iter()
+        .filter(|(k, node)| {
+            k.len() > root.len()
+                && k[..root.len()] == root[..]
+                && !k[root.len()..].iter().any(|c| c.starts_with('.'))
+                && match node {
+                    Node::File(_) => true,
+                    Node::Dir => dirs,
+                    Node::Link(_) => false,
+                }
+        })
+        .map(|(k, _)| k[root.len()..].join("/").replace('\\', "/"))
+        .collect()
+}
+
 fn flatten_tree(nodes: &[IdeTreeNode], out: &mut Vec<String>) {
     for n in nodes {
         let tag = if n.kind == "directory" { "d" } else { "f" };
@@ -430,6 +449,7 @@ fn exec(w: &mut World, op: &Op, n: u64, out: &mut Out) {
     // values needed by the protocol oracle after the call
     let mut issued_now: Option<(usize, String, u64, String)> = None;
     let mut lost_update: Option<(String, bool)> = None;
+    let mut hidden_listed = false;
     let answer: Result<String, ()> = catch_unwind(AssertUnwindSafe(|| match op {
         Op::Session(editor) => {
             match w.state.create_session(if *editor { IdeRole::Editor } else { IdeRole::Viewer }) {
@@ -539,6 +559,9 @@ fn exec(w: &mut World, op: &Op, n: u64, out: &mut Out) {
         Op::List { tok } => match w.state.list_sources(&w.token(*tok)) {
             Ok(v) => {
                 leak_text = v.join("\n");
+                // every listed name must be the display name of a visible, in-root regular file
+                let ok = visible_names(&before, &w.root_phys, false);
+                hidden_listed = v.iter().any(|p| !ok.contains(p));
                 format!("ok {}", list_or_dash(v.iter().map(|p| hex(p.as_bytes())).collect()))
             }
             Err(e) => err_str(&e),
@@ -547,6 +570,11 @@ fn exec(w: &mut World, op: &Op, n: u64, out: &mut Out) {
             Ok(v) => {
                 let mut flat = Vec::new();
                 flatten_tree(&v, &mut flat);
+                let ok = visible_names(&before, &w.root_phys, true);
+                fn all_ok(ns: &[IdeTreeNode], ok: &std::collections::BTreeSet<String>) -> bool {
+                    ns.iter().all(|n| ok.contains(&n.path) && all_ok(&n.children, ok))
+                }
+                hidden_listed = !all_ok(&v, &ok);
                 format!("ok {}", list_or_dash(flat))
             }
             Err(e) => err_str(&e),
@@ -603,6 +631,9 @@ fn exec(w: &mut World, op: &Op, n: u64, out: &mut Out) {
     // oracles on the implementation
     w.check_diff(out, n, &line, &changed, may_mutate, &subtrees);
     w.check_leak(out, n, &line, &leak_text);
+    if hidden_listed {
+        w.oracle_fail(out, n, "listed-entry-not-a-visible-project-file", &line, "");
+    }
     if let Some((detail, tainted)) = lost_update {
         if tainted {
             out.count("known_version_reuse_seen");
@@ -995,6 +1026,8 @@ fn oracle_only_tail(w: &mut World, rng: &mut Rng, n: u64, out: &mut Out) {
             out.count("analysis_ops_skipped_huge_file");
         }
         let label = format!("oracle-only op {which} tok={tok} we={we} path={:?}", path.chars().take(40).collect::<String>());
+        // the physical directory a delete acts on as a whole (hidden descendants go with it)
+        let pre_phys = if which == 4 && !path.contains('\0') { w.physical_of(path.trim()) } else { None };
         let r = catch_unwind(AssertUnwindSafe(|| {
             let pos = Position { line: rng.below(4) as u32, character: rng.below(8) as u32 };
             match which {
@@ -1031,10 +1064,7 @@ fn oracle_only_tail(w: &mut World, rng: &mut Rng, n: u64, out: &mut Out) {
         let (_, changed) = diff(&before, &after);
         w.snap = after;
         let mut subtrees: Vec<Vec<String>> = Vec::new();
-        if which == 4 {
-            // computed from the "before" tree: the deleted directory, if it was one
-            let mut p = w.root_phys.clone();
-            p.extend(path.trim().split('/').filter(|c| !c.is_empty() && *c != ".").map(|c| c.to_string()));
+        if let Some(p) = pre_phys {
             subtrees.push(p);
         }
         if r.is_err() {
